@@ -385,7 +385,9 @@ class _BaseODE:
         else:
             # # rb = np.ix_(np.atleast_1d(rb))[0]
             # rb = np.atleast_1d(rb)
-            rb = self._ensure_index_type(rb)
+            # sorted, so that `rb` and `_rb` (and everything built from
+            # `_rb`, eg the rigid-body mass) list the modes in the same order
+            rb = np.sort(self._ensure_index_type(rb))
             vec = np.zeros(self.n, bool)
             vec[rb] = True
             _rb = np.nonzero(vec[self.nonrf])[0]
